@@ -268,6 +268,24 @@ def gen_unusual(tier: str, rng: random.Random) -> Iterator[Dict[str, Any]]:
                     apps={"1": build.simple_resp_program(chunks=[2], read_first=False)[:-1] + [["return"]]})
         sc["bodies"] = {"1": [1, 5]}
         yield sc
+    # frames for a stream whose response has completed while the client's side is still open
+    for frame in ("wupd", "rst", "prio", "wupd-then-data", "trailers"):
+        mid = [build.h2_headers(1, 3, "POST", toks=[["/half", "/half"]], end=False, total=5),
+               {"s": "dt", "d": 0.05}]
+        if frame.startswith("wupd"):
+            mid.append({"s": "h2", "op": "wupd", "stream": 3, "n": 1000})
+        if frame == "rst":
+            mid.append({"s": "h2", "op": "rst", "stream": 3})
+        if frame == "prio":
+            mid.append({"s": "h2", "op": "prio", "stream": 3, "weight": 9, "depends_on": 1, "exclusive": False})
+        if frame == "wupd-then-data":
+            mid.append({"s": "h2", "op": "data", "stream": 3, "pat": [1, 0, 5], "end": True})
+        if frame == "trailers":
+            mid.append({"s": "h2", "op": "trailers", "stream": 3, "hdrs": [["x-t", "1"]]})
+        sc = script(mid, "half-open-after-response-%s" % frame,
+                    apps={"1": build.simple_resp_program(chunks=[2], read_first=False)[:-1] + [["return"]]})
+        sc["bodies"] = {"1": [1, 5]}
+        yield sc
     # plain CONNECT without :path
     hdrs = [[":method", "CONNECT"], [":authority", "hypercorn:443"], ["x-rid", "1"]]
     mid = [{"s": "h2", "op": "headers", "stream": 3, "rid": "1", "method": "CONNECT", "hdrs": hdrs, "end": False}]
@@ -314,7 +332,7 @@ def gen_h2_faults(tier: str, rng: random.Random) -> Iterator[Dict[str, Any]]:
     """C03/C05/C07 on HTTP/2: two streams, faults and crash points."""
     chunks = [3, 4]
     nops = len(std_ops(1, chunks))
-    ends: List[Any] = [("disc", nops)] + [(e, c) for c in range(nops + 1) for e in ("return", "raise")]
+    ends: List[Any] = [("disc", nops)] + [(e, c) for c in range(nops + 1) for e in ("return", "raise", "cancel")]
     for end, cut in ends:
         for fault in ("none", "eof", "reset", "fail", "shutdown", "rst1", "expire"):
             if tier == "quick" and rng.random() < 0.5 and fault != "none":
